@@ -18,14 +18,19 @@ CONFIGS = {
         "quick": [("w_same", "waker", "WB_same", "S_w2", "M_p2"),
                   ("w_words", "waker", "WB_words", "S_w2b", "M_p1"),
                   ("w_bms", "waker", "WB_bms", "S_w2c", "M_p1"),
-                  ("w_two", "waker", "WB_two", "S_w2d", "M_p1")],
+                  ("w_two", "waker", "WB_two", "S_w2d", "M_p1"),
+                  ("hwake", "waker", "WB_three", "S_h2", "M_p2", "HP_hwake"),
+                  ("hnest", "waker", "WB_three", "S_h3", "M_p1", "HP_nested")],
         "thorough": [("w_three", "waker", "WB_three", "S_w3", "M_p2"),
                      ("w_same3", "waker", "WB_same", "S_w2", "M_p3")],
     },
     "C12": {
         "quick": [("wd", "waker", "WB_same", "S_wd", "M_p2"),
                   ("wd2", "waker", "WB_same", "S_wd2", "M_p1"),
-                  ("wrec", "waker", "WB_same", "S_wd2", "M_recycle")],
+                  ("wrec", "waker", "WB_same", "S_wd2", "M_recycle"),
+                  ("hfin", "waker", "WB_three", "S_h1", "M_p2", "HP_findrop"),
+                  ("hself", "waker", "WB_three", "S_h1", "M_h2", "HP_selfdrop"),
+                  ("hnest", "waker", "WB_three", "S_h3", "M_p1", "HP_nested")],
         "thorough": [("w_three", "waker", "WB_three", "S_w3", "M_p2"),
                      ("wd_bms", "waker", "WB_bms", "S_wd3", "M_p2")],
     },
@@ -57,14 +62,19 @@ ASSUME = [
 ]
 
 
-def write_cfg(name, kind, wb, sc, ms, ordset, orddrain, export):
+def write_cfg(name, kind, wb, sc, ms, ordset, orddrain, export, hp="NoHProg"):
     path = os.path.join(common.SPECS, "_gen_%s.cfg" % name)
-    inv = "NoViolation Published NoDeadlock" + (" ExportInv" if export else "")
+    inv = "NoViolation Published NoDeadlock NoPanic" + (" ExportInv" if export else "")
     with open(path, "w") as f:
-        f.write("SPECIFICATION Spec\nCONSTANTS\n  Kind = \"%s\"\n  WakerBits <- %s\n  Scripts <- %s\n  MainScript <- %s\n"
+        f.write("SPECIFICATION Spec\nCONSTANTS\n  Kind = \"%s\"\n  WakerBits <- %s\n  Scripts <- %s\n  MainScript <- %s\n  HProg <- %s\n"
                 "  OrdSet = \"%s\"\n  OrdDrain = \"%s\"\nINVARIANT %s\n%sCHECK_DEADLOCK FALSE\n"
-                % (kind, wb, sc, ms, ordset, orddrain, inv, "" if export else "VIEW View\n"))
+                % (kind, wb, sc, ms, hp, ordset, orddrain, inv, "" if export else "VIEW View\n"))
     return os.path.basename(path)
+
+
+def _cfg5(t):
+    """(name, kind, wakers, scripts, main[, hprog]) -> 6-tuple"""
+    return tuple(t) + (("NoHProg",) if len(t) == 5 else ())
 
 
 def tlc_run(cfg, tag, sim=None, seed=1):
@@ -156,9 +166,36 @@ def rand_scripts(rng, kind):
                     ops.append(["drop", w])
             threads.append(ops)
         main = [["poll"] for _ in range(rng.randrange(0, 4))]
+        hprog = {}
+        if rng.random() < 0.35:
+            # handlers that do things on the main thread, inside poll_wake; `m` is a waker no worker thread touches
+            m = rng.choice([w for w in (3, 66, 5) if w not in wk])
+            w = rng.choice(wk)
+            c = rng.random()
+            if c < 0.3:
+                hprog[str(w)] = {"wake": [], "final": [["drop", m]]}
+                wk = sorted(wk + [m])
+            elif c < 0.5:
+                hprog[str(w)] = {"wake": [["wake", m]], "final": []}
+                wk = sorted(wk + [m])
+            elif c < 0.75:
+                hprog[str(m)] = {"wake": [["drop", m]], "final": []}
+                wk = sorted(wk + [m])
+                main = [["wake", m]] + main + [["poll"]]
+            else:
+                # re-entrant poll_wake from the handler of a waker that is woken exactly once and never dropped
+                for ops in threads:
+                    seen = False
+                    for o in list(ops):
+                        if o[1] == w:
+                            if o[0] == "wake" and not seen:
+                                seen = True
+                            else:
+                                ops.remove(o)
+                hprog[str(w)] = {"wake": [["poll"]], "final": []}
         if rng.random() < 0.3:
             main += [["create"], ["poll"], ["wake", 1000], ["poll"], ["drop", 1000]]
-        return {"kind": "waker", "wakers": wk, "threads": threads, "main": main}
+        return {"kind": "waker", "wakers": wk, "threads": threads, "main": main, "hprog": hprog}
     if kind == "channel":
         nth = rng.choice([1, 2, 3])
         threads = [[["send", 10 * t + i] for i in range(1, rng.randrange(2, 4))] + ([["isclosed"]] if rng.random() < 0.3 else [])
@@ -242,8 +279,8 @@ def run(prop, tier, seed, replay=None):
     else:
         cfgs = list(CONFIGS[prop]["quick"]) + (CONFIGS[prop]["thorough"] if tier == "thorough" else [])
         nsim = 120 if tier == "quick" else 1500
-        for (name, k, wb, sc, ms) in cfgs:
-            cfg = write_cfg(name, k, wb, sc, ms, "SeqCst", "SeqCst", False)
+        for (name, k, wb, sc, ms, hp) in map(_cfg5, cfgs):
+            cfg = write_cfg(name, k, wb, sc, ms, "SeqCst", "SeqCst", False, hp)
             out = tlc_run(cfg, "sync-%s-%s" % (prop, name))
             st, tr = common.tlc_stats(out)
             states += st
@@ -257,7 +294,7 @@ def run(prop, tier, seed, replay=None):
                 continue
             if "Model checking completed. No error has been found." not in out:
                 raise common.ToolError("TLC did not complete on Sync/%s:\n%s" % (name, out[-3000:]))
-            cfgx = write_cfg(name + "_x", k, wb, sc, ms, "SeqCst", "SeqCst", True)
+            cfgx = write_cfg(name + "_x", k, wb, sc, ms, "SeqCst", "SeqCst", True, hp)
             out = tlc_run(cfgx, "syncsim-%s-%s" % (prop, name), sim=(nsim // 4 if name == "w_two" else nsim), seed=seed)
             behs = syncexport.parse(out)
             for i, b in enumerate(behs):
@@ -277,7 +314,7 @@ def run(prop, tier, seed, replay=None):
                     else:
                         c["fallback"] = "pct"
                         c["change"] = sorted(rrng.sample(range(1, 46), rrng.choice([1, 1, 2, 3])))
-                    c["replay_cfg"] = (name, k, wb, sc, ms)
+                    c["replay_cfg"] = (name, k, wb, sc, ms, hp)
                     cases.append(c)
         # random scripts under random schedules
         rng = random.Random(seed * 7919 + 13)
@@ -335,7 +372,7 @@ def run(prop, tier, seed, replay=None):
         if "replay_cfg" in c:
             groups.setdefault(c["replay_cfg"], []).append(i)
     replayed = 0
-    for (name, k, wb, sc, ms), idxs in groups.items():
+    for (name, k, wb, sc, ms, hp), idxs in groups.items():
         spath = os.path.join(common.WORK, "conc", "%s-%s.scheds.ndjson" % (tag, name))
         with open(spath, "w") as f:
             for i in idxs:
@@ -344,7 +381,7 @@ def run(prop, tier, seed, replay=None):
                     if e.get("e") == "end" and "taken" in e:
                         taken = e["taken"]
                 f.write(json.dumps({"name": cases[i]["case"], "taken": taken}) + "\n")
-        cfg = write_cfg(name + "_rp", k, wb, sc, ms, "SeqCst", "SeqCst", False).replace(".cfg", "")
+        cfg = write_cfg(name + "_rp", k, wb, sc, ms, "SeqCst", "SeqCst", False, hp).replace(".cfg", "")
         cpath2 = os.path.join(common.SPECS, cfg + ".cfg")
         txt = open(cpath2).read().replace("SPECIFICATION Spec", "SPECIFICATION RSpec")
         txt = "\n".join(l for l in txt.splitlines() if not l.startswith("INVARIANT") and not l.startswith("VIEW")) + "\n"
@@ -374,8 +411,8 @@ def run(prop, tier, seed, replay=None):
     ordering_checked = False
     if not replay and (oset != "SeqCst" or odrain != "SeqCst"):
         ordering_checked = True
-        for (name, k, wb, sc, ms) in CONFIGS[prop]["quick"][:2]:
-            cfg = write_cfg(name + "_ord", k, wb, sc, ms, oset, odrain, False)
+        for (name, k, wb, sc, ms, hp) in map(_cfg5, CONFIGS[prop]["quick"][:2]):
+            cfg = write_cfg(name + "_ord", k, wb, sc, ms, oset, odrain, False, hp)
             out = tlc_run(cfg, "syncord-%s-%s" % (prop, name))
             if "is violated" in out:
                 p = os.path.join(common.REPLAYS, "%s-sync-%s-ord.tlc.txt" % (prop, name))
